@@ -37,13 +37,22 @@ else:
 
 
 class ThreadProxy:
-    """auxiliary class to provide ident based ``__eq__``."""
+    """auxiliary class to provide ident based ``__eq__``.
+
+    Thread idents are reused by the OS once a thread has finished.
+    Threads known to ``threading`` are therefore compared by identity;
+    the ident is used only when one of the threads is known merely
+    through ``sys._current_frames``.
+    """
 
     def __init__(self, thread):
         self.thread = thread
 
     def __eq__(self, other):
-        return self.thread.ident == other.thread.ident
+        if (isinstance(self.thread, DummyThread)
+                or isinstance(other.thread, DummyThread)):
+            return self.thread.ident == other.thread.ident
+        return self.thread is other.thread
 
     def __repr__(self):
         return repr(self.thread)
